@@ -171,6 +171,12 @@ def directed():
         # the combined call waits for a slow server (2.3 s of real time: longer than the library's internal 2 s wait slice):
         # the request is queued once, whatever the wait does
         P.append([c, "CSendvRecv 24 2300", "SPoll", "CRecv", "CSendvRecv 16", "SPoll", "CRecv", "CRecv"])
+        # the application's receive buffer is smaller than the message that is waiting: whatever the call returns, it
+        # writes nothing past the buffer (the schedule ends there)
+        for n in (16, 64, 1000):
+            P.append([c, "SResp 4096", "CRecvSmall %d" % n])
+            P.append([c, "SEvent 4096", "CEvRecvSmall %d" % n])
+            P.append([c, "SResp M", "SEvent M", "CEvRecvSmall %d" % n])
         # response channel full
         P.append([c, "Rep 5 SResp M", "Rep 4 SResp 4096", "Rep 3 CRecv", "Rep 3 SRespv M-1", "Rep 12 CRecv"])
         P.append([c, "Rep 700 SResp 16", "Rep 300 CRecv", "Rep 300 SRespv 17", "Rep 800 CRecv"])
